@@ -89,10 +89,22 @@ func verifSnapshotRecords(buf []byte) (map[string]int, error) {
 // restored server has lost the manual virtual IPs (known finding), later manual-VIP commands legitimately answer
 // differently and the re-persisted virtual-IP records lack the field. They are counted under the root-cause key while
 // that key is listed as known and was observed in the same case; otherwise they are reported under their own key.
-var verifC02Downstream = []struct{ prefix, root string }{
-	{"C02/result-differs/UpdateVirtualIP/", "C02/query=ServiceManualVIPs/field=ManualIPs"},
-	{"C02/query=ServiceManualVIPs/", "C02/query=ServiceManualVIPs/field=ManualIPs"},
-	{"C02/re-persist-differs/type=32", "C02/query=ServiceManualVIPs/field=ManualIPs"},
+var verifC02Downstream = []struct{ prefix, suffix, root string }{
+	{"C02/result-differs/UpdateVirtualIP/", "", "C02/query=ServiceManualVIPs/field=ManualIPs"},
+	{"C02/query=ServiceManualVIPs/", "", "C02/query=ServiceManualVIPs/field=ManualIPs"},
+	{"C02/re-persist-differs/type=32", "", "C02/query=ServiceManualVIPs/field=ManualIPs"},
+	// a check's denormalised ServiceTags differs in the base table: every query that returns checks shows it, and the
+	// re-persisted registration records carry the refreshed tags
+	{"C02/query=", "/field=ServiceTags", "C02/table=checks/field=ServiceTags"},
+	{"C02/re-persist-differs/type=0", "", "C02/table=checks/field=ServiceTags"},
+	// the peering table index regressed: the peering queries report it, the re-persisted index record and the
+	// snapshot header (max over all table indexes) differ
+	{"C02/query=PeeringList", "/field=index", "C02/table=index/key=peering"},
+	{"C02/re-persist-differs/type=16", "", "C02/table=index/key=peering"},
+	{"C02/re-persist-differs/type=header", "", "C02/table=index/key=peering"},
+	{"C02/query=PeeringTrustBundleList", "/field=index", "C02/table=index/key=peering-trust-bundles"},
+	{"C02/re-persist-differs/type=16", "", "C02/table=index/key=peering-trust-bundles"},
+	{"C02/re-persist-differs/type=header", "", "C02/table=index/key=peering-trust-bundles"},
 }
 
 type verifC02Reporter struct {
@@ -104,7 +116,7 @@ type verifC02Reporter struct {
 func (r *verifC02Reporter) report(key, format string, args ...interface{}) {
 	rec := verifkit.For("C02")
 	for _, d := range verifC02Downstream {
-		if strings.HasPrefix(key, d.prefix) && key != d.root && rec.IsKnown(d.root) && r.roots[d.root] {
+		if strings.HasPrefix(key, d.prefix) && strings.HasSuffix(key, d.suffix) && key != d.root && rec.IsKnown(d.root) && r.roots[d.root] {
 			r.c.KnownHit(d.root)
 			r.c.Label("downstream-of-known:" + d.root)
 			return
@@ -160,6 +172,32 @@ func verifStripIdx(p string) string {
 	return strings.Join(out, ".")
 }
 
+// verifFieldClass coarsens a result path into the field class used in finding keys: "index" (the index the query
+// reports), "error", "RaftIndex" (Create/ModifyIndex inside the result), "rows" (membership of a result list or an
+// identity field: the compared lists are sorted, so a missing row shows up as a shifted identity), else the name of
+// the differing field.
+func verifFieldClass(path string) string {
+	if path == "index" || path == "error" {
+		return path
+	}
+	p := verifStripIdx(path)
+	if p == "" || p == "value" {
+		return "rows"
+	}
+	segs := strings.Split(p, ".")
+	last := segs[len(segs)-1]
+	switch last {
+	case "CreateIndex", "ModifyIndex":
+		return "RaftIndex"
+	case "Name", "Node", "ID", "CheckID", "Key", "ServiceID", "Service", "Gateway", "ServiceName":
+		return "rows"
+	}
+	if len(segs) > 1 && (segs[0] == "UpstreamDecisions" || segs[0] == "DownstreamDecisions" || segs[0] == "UpstreamSources" || segs[0] == "DownstreamSources") {
+		return segs[0]
+	}
+	return last
+}
+
 var verifUniverseNames = func() map[string]bool {
 	m := map[string]bool{"*": true, "peerA": true, "peerB": true}
 	for _, l := range [][]string{verifPanelServices, vs.Nodes, vs.ServiceNames, vs.Keys, vs.CheckIDs} {
@@ -198,7 +236,7 @@ func verifC02Compare(rp *verifC02Reporter, when string, x, y verifC02Point) {
 	// L2: the query panel
 	visible := map[string]bool{}
 	for _, d := range verifPanelDiff(x.panel, y.panel) {
-		key := fmt.Sprintf("C02/query=%s/field=%s", d.name, verifStripIdx(d.field))
+		key := fmt.Sprintf("C02/query=%s/field=%s", d.name, verifFieldClass(d.field))
 		visible[d.name] = true
 		if seen[key] {
 			continue
@@ -399,7 +437,7 @@ func verifC02Step(rp *verifC02Reporter, y *verifReplica, cmds []*vs.FCmd, resX [
 			rp.c.Label("result-order-differs(C01)")
 			return
 		}
-		rp.report(fmt.Sprintf("C02/result-differs/%s/field=%s", vs.FTypeName(cmds[i].MsgType()), verifStripIdx(path)),
+		rp.report(fmt.Sprintf("C02/result-differs/%s/field=%s", vs.FTypeName(cmds[i].MsgType()), verifFieldClass(path)),
 			"entry #%d (index %d) %s [%s] after the restore: original returned\n   %s\nrestored server returned\n   %s", i, cmds[i].Idx, cmds[i].Kind, cmds[i].Desc, resX[i].Canon, ry.Canon)
 	}
 }
